@@ -246,6 +246,8 @@ func guardEdges(fn *ssa.Function, g guardSpec) (edges map[edge]bool, descr []str
 			}
 		}
 	}
+	// plus the edges on which g holds on every feasible traversal once merged conditions are resolved per path
+	threadedGuardEdges(fn, g, edges, &descr)
 	return
 }
 
@@ -275,6 +277,14 @@ func barrierIndex(b *ssa.BasicBlock, afters []string) int {
 // function entry without crossing a removed edge or a barrier instruction, and
 // for each such block the index before which instructions are unguarded.
 func reachUnguarded(fn *ssa.Function, removed map[edge]bool, afters []string) map[*ssa.BasicBlock]int {
+	// paths that a merged condition (bool / error phi) makes infeasible are not followed
+	if limit := reachUnguardedThreaded(fn, removed, afters); limit != nil {
+		return limit
+	}
+	return reachUnguardedPlain(fn, removed, afters)
+}
+
+func reachUnguardedPlain(fn *ssa.Function, removed map[edge]bool, afters []string) map[*ssa.BasicBlock]int {
 	limit := map[*ssa.BasicBlock]int{} // block -> number of leading instrs reachable unguarded
 	if len(fn.Blocks) == 0 {
 		return limit
